@@ -336,7 +336,11 @@ impl Scenario for Shared {
         w.set_arrived(c, req, fut);
     }
     fn outs(&self) -> Vec<Out> {
-        vec![Out::Ok, Out::Err(0)]
+        if self.cfg.predicate {
+            vec![Out::Ok, Out::Err(0), Out::Err(1)]
+        } else {
+            vec![Out::Ok, Out::Err(0)]
+        }
     }
     fn drops_enabled(&self) -> bool {
         false
@@ -413,11 +417,20 @@ pub fn shared_configs(tier: Tier) -> Vec<Shared> {
             v.push(Shared {
                 cfg: Cfg { max_attempts, per_request: false, backoff: Backoff::Fixed, predicate: false, budget: BudgetKind::Token(tokens) },
                 callers: tier.pick(2, 3),
-                max_ticks: 3,
+                max_ticks: tier.pick(3, 5),
             });
         }
     }
-    v.push(Shared { cfg: Cfg { max_attempts: 2, per_request: false, backoff: Backoff::Fixed, predicate: false, budget: BudgetKind::Aimd }, callers: 2, max_ticks: 3 });
-    v.push(Shared { cfg: Cfg { max_attempts: 3, per_request: false, backoff: Backoff::Zero, predicate: false, budget: BudgetKind::Token(1) }, callers: 2, max_ticks: 1 });
+    v.push(Shared { cfg: Cfg { max_attempts: 2, per_request: false, backoff: Backoff::Fixed, predicate: false, budget: BudgetKind::Aimd }, callers: tier.pick(2, 3), max_ticks: tier.pick(3, 4) });
+    v.push(Shared { cfg: Cfg { max_attempts: 3, per_request: false, backoff: Backoff::Zero, predicate: false, budget: BudgetKind::Token(1) }, callers: tier.pick(2, 3), max_ticks: 1 });
+    if tier == Tier::Thorough {
+        // no budget, a predicate, backoffs of different shapes: two and three overlapping requests
+        for backoff in [Backoff::Exponential, Backoff::Fn, Backoff::Fractional] {
+            for predicate in [false, true] {
+                v.push(Shared { cfg: Cfg { max_attempts: 3, per_request: false, backoff, predicate, budget: BudgetKind::None }, callers: 2, max_ticks: 6 });
+            }
+        }
+        v.push(Shared { cfg: Cfg { max_attempts: 2, per_request: true, backoff: Backoff::Fixed, predicate: true, budget: BudgetKind::Token(2) }, callers: 3, max_ticks: 4 });
+    }
     v
 }
